@@ -600,6 +600,11 @@ func Fail(format string, args ...any) {
 	if ex == nil {
 		return
 	}
+	if ex.poison {
+		// the execution is over and its threads are being unwound (a recover() in the code under test may have
+		// swallowed the unwinding sentinel and let a thread run on): nothing it does now is a behaviour of the program
+		return
+	}
 	s := fmt.Sprintf(format, args...)
 	ex.res.Failures = append(ex.res.Failures, s)
 	if ex.tracing {
